@@ -645,6 +645,7 @@ func TestVerifC11(t *testing.T) {
 			}
 		}
 		var evals, nontriv, nAmb, nNoFallback int64
+		sampled := false
 		var outc [16]int64
 		probes := mkProbes(hosts, paths)
 		for pi := range probes {
@@ -721,7 +722,8 @@ func TestVerifC11(t *testing.T) {
 				if w0.rule == -1 {
 					nNoFallback++
 				}
-				if len(set) == 3 && indiv >= 3 && w0.hc == c11HWild {
+				if !sampled && len(set) == 3 && indiv >= 3 && pr.h != pr.host && idx%97 == 0 {
+					sampled = true
 					r.Sample(map[string]interface{}{"rules": setKey, "host": pr.host, "path": pr.path,
 						"reference": c11HName[w0.hc] + "/" + c11PName[w0.ps], "rule": w0.rule, "impl_rule": got})
 				}
